@@ -28,6 +28,7 @@ func main() {
 	out := flag.String("out", "", "write JSON result")
 	nobatch := flag.Bool("nobatch", false, "one query per obligation")
 	listSSA := flag.String("ssa", "", "dump ssa of function")
+	jsonSummary := flag.Bool("json-summary", false, "print one line per unit: name obligations proved error")
 	flag.Parse()
 
 	t0 := time.Now()
@@ -98,6 +99,25 @@ func main() {
 		go func(u *UnitResult) { defer wg.Done(); u.discharge(opt) }(u)
 	}
 	wg.Wait()
+	if *jsonSummary {
+		for _, u := range units {
+			np := 0
+			for _, o := range u.Obls {
+				if o.Status == "proved" {
+					np++
+				}
+			}
+			e := "-"
+			if u.Error != "" {
+				e = "error"
+			}
+			if u.Cover == "unsat" {
+				e = "vacuous"
+			}
+			fmt.Printf("%s %d %d %s\n", strings.ReplaceAll(u.Unit, " ", ""), len(u.Obls), np, e)
+		}
+		return
+	}
 	bad := 0
 	for _, u := range units {
 		printUnit(u, *dump)
@@ -123,6 +143,14 @@ func main() {
 func (p *Program) expandUserKey(k string) string {
 	if _, ok := p.funcs[k]; ok {
 		return k
+	}
+	// the module's root package: "<modname>.F" / "<modname>.(*T).M"
+	if strings.HasPrefix(k, p.ModPath+".") {
+		rest := strings.TrimPrefix(k, p.ModPath+".")
+		if strings.HasPrefix(rest, "(") {
+			return expandKey(p.ModPath, rest)
+		}
+		return p.ModPath + "." + rest
 	}
 	// pkg.(*T).M or pkg.(T).M or pkg.F
 	if i := strings.Index(k, ".("); i > 0 {
